@@ -114,29 +114,19 @@ def lookupSRV (srv : Str → Str → SrvAnswer) (name : Str) : List (Str × Nat)
     | .records rs => (rs, false)
     | _ => ([], true)
 
-/-- one SRV record -> target; `target[len(target)-1]` is an index expression -/
-def srvTarget (name : Str) (rec : Str × Nat) : Except Err Target :=
-  match rec.1.getLast? with
-  | none => .error (.panic "fclient/resolve.go:handleNoWellKnown:index out of range")
-  | some last =>
-    let target := if last == '.' then rec.1.dropLast else rec.1
-    .ok ⟨target ++ ':' :: natStr rec.2, name, name⟩
+/-- one SRV record -> target: `strings.TrimSuffix(rec.Target, ".")`; a record whose target is the root (nothing
+    is left) is skipped -/
+def srvTarget (name : Str) (rec : Str × Nat) : Option Target :=
+  let target := if rec.1.getLast? == some '.' then rec.1.dropLast else rec.1
+  if target.isEmpty then none else some ⟨target ++ ':' :: natStr rec.2, name, name⟩
 
 /-- the `for _, rec := range records` loop of handleNoWellKnown -/
-def srvTargetsGo (name : Str) : List (Str × Nat) → Except Err (List Target)
-  | [] => .ok []
-  | r :: rest =>
-    match srvTarget name r with
-    | .error e => .error e
-    | .ok t =>
-      match srvTargetsGo name rest with
-      | .error e => .error e
-      | .ok ts => .ok (t :: ts)
+def srvTargetsGo (name : Str) (records : List (Str × Nat)) : List Target := records.filterMap (srvTarget name)
 
-/-- handleNoWellKnown -/
+/-- handleNoWellKnown (the result may be empty: every record found names the root) -/
 def handleNoWellKnown (srv : Str → Str → SrvAnswer) (name : Str) : Except Err (List Target) :=
   let (records, err) := lookupSRV srv name
-  if !err && records.length > 0 then srvTargetsGo name records
+  if !err && records.length > 0 then .ok (srvTargetsGo name records)
   else .ok [⟨name ++ ':' :: port8448, name, name⟩]
 
 /-- steps 1 and 2 of resolveServer for a valid name split into host and port;
@@ -236,6 +226,133 @@ def roundTrip (o : Oracles) (name : Str) (reach : Network) (cache : Option (List
         let (a2, ok2) := tryTargets reach a1 results
         .ok ⟨a1 ++ a2, ok2, resolved, none⟩
 
+/-! ## fclient/client.go: where a client with allow / deny lists connects
+
+  `NewClient(WithAllowDenyNetworks(allow, deny), [WithDNSCache(NewDNSCache(…, cacheAllow, cacheDeny))],
+  [WithWellKnownSRVLookups(true)])` sending ONE request to a server name, against a network given as
+  parameters: the addresses of every host name (in resolver order), which (address, port) pairs are
+  listened on, and the /.well-known/matrix/server document every host serves on port 443.  The outcome is
+  the list of (address, port) pairs a TCP connection was ESTABLISHED to, and whether the request was
+  answered.  (newDestinationTripperDialer, allowDenyNetworksControl, getTransport, DNSCache.DialContext,
+  RoundTrip, LookupWellKnown's http.Client.)  SRV lookups find nothing here. -/
+namespace Policy
+open V.Cidr (parseCIDR isAllowed)
+
+structure Config where
+  wellKnown : Bool                   -- WithWellKnownSRVLookups(true)
+  cache : Bool                       -- WithDNSCache
+  allow : List Str                   -- WithAllowDenyNetworks
+  deny : List Str
+  cacheAllow : List Str              -- the lists NewDNSCache was given
+  cacheDeny : List Str
+
+inductive WkDoc where
+  | none                             -- 404
+  | server (d : Str)                 -- {"m.server": d}
+  | redirect (host : Str)            -- 302 to https://host/.well-known/matrix/server
+  deriving Repr, DecidableEq
+
+structure Net where
+  addrs : Str → List Str             -- DNS: addresses of a host name, in the order the resolver returns them
+  listening : Str → Str → Bool       -- address, port
+  wkDoc : Str → WkDoc                -- by Host header
+
+/-- `allowDenyNetworksControl(allow, deny)` on an address text -/
+def listsPermit (allow deny : List Str) (ip : Str) : Bool :=
+  match parseIP ip with
+  | some a => isAllowed a (allow.map parseCIDR) (deny.map parseCIDR)
+  | none => false
+
+/-- newDestinationTripperDialer: no ControlContext at all when both lists are empty -/
+def clientControl (c : Config) (ip : Str) : Bool :=
+  if c.allow.isEmpty && c.deny.isEmpty then true else listsPermit c.allow c.deny ip
+
+/-- NewDNSCache: the cache's own dialer always carries a control function over ITS lists -/
+def cacheControl (c : Config) (ip : Str) : Bool := listsPermit c.cacheAllow c.cacheDeny ip
+
+def hostAddrs (n : Net) (host : Str) : List Str :=
+  if (parseIP host).isSome then [host] else n.addrs (host.map Char.toLower)
+
+/-- net.Dialer.DialContext("tcp", host:port) with a control function: the addresses are tried in order; the
+    control function runs before each connect; the first address that passes it and is listened on is
+    connected to.  `none` = no connection. -/
+def dialVia (ctl : Str → Bool) (n : Net) (host port : Str) : Option Str :=
+  ((hostAddrs n host).filter (fun ip => ctl ip && n.listening ip port)).head?
+
+/-- the DialContext of the federation transports (getTransport): the client's dialer — or, with a DNS cache,
+    `DNSCache.dialContextVia(dialer)`: the cache resolves the name, the connections are made by the client's
+    dialer under BOTH control functions (the cache's lists and the client's), the address built with
+    net.JoinHostPort. -/
+def fedDial (c : Config) (n : Net) (host port : Str) : Option Str :=
+  if c.cache then dialVia (fun ip => cacheControl c ip && clientControl c ip) n host port
+  else dialVia (clientControl c) n host port
+
+/-- the client has a dialer control function or a DNS cache (`wellKnownTransport() != nil`) -/
+def restricted (c : Config) : Bool := !(c.allow.isEmpty && c.deny.isEmpty) || c.cache
+
+/-- the DialContext of the well-known fetch: the one of the federation transports when the client is
+    restricted in where it may connect; http.DefaultTransport otherwise -/
+def wkDial (c : Config) (n : Net) (host port : Str) : Option Str :=
+  if restricted c then fedDial c n host port else dialVia (fun _ => true) n host port
+
+/-- LookupWellKnown(host): the connections made (redirects are followed) and the m.server found -/
+def wkFetch (c : Config) (n : Net) : Nat → Str → List (Str × Str) × Option Str
+  | 0, _ => ([], none)
+  | fuel + 1, host =>
+    match wkDial c n host "443".toList with
+    | none => ([], none)
+    | some ip =>
+      match n.wkDoc (host.map Char.toLower) with
+      | .none => ([(ip, "443".toList)], none)
+      | .server d => ([(ip, "443".toList)], if d.isEmpty then none else some d)
+      | .redirect h2 =>
+        let (a, r) := wkFetch c n fuel h2
+        ((ip, "443".toList) :: a, r)
+
+/-- host and port of a destination (`https://<dest>/…`: port 443 when none is given) -/
+def splitDest (dest : Str) : Str × Str :=
+  let (h, p) : Str × Str := match splitLastColon dest with
+    | some (h, p) => if parsePort p |>.isSome then (h, p) else (dest, "443".toList)
+    | none => (dest, "443".toList)
+  (if h.head? == some '[' && h.getLast? == some ']' then (h.drop 1).dropLast else h, p)
+
+/-- the `for _, result := range resolutionResults` loop: connections made, and whether one was answered -/
+def tryDial (c : Config) (n : Net) : List Target → List (Str × Str) × Bool
+  | [] => ([], false)
+  | t :: ts =>
+    let (h, p) := splitDest t.dest
+    match fedDial c n h p with
+    | some ip => ([(ip, p)], true)
+    | none => tryDial c n ts
+
+structure Outcome where
+  arrivals : List (Str × Str)
+  ok : Bool
+  deriving Repr
+
+/-- one request through RoundTrip.  (When every target fails the loop runs a second time over a fresh
+    resolution: the same connections again — the outcome lists each once.) -/
+def request (c : Config) (n : Net) (name : Str) : Outcome :=
+  if c.wellKnown then
+    let wkArr := match resolveDirect name with
+      | .ok none => (wkFetch c n 11 name).1
+      | _ => []
+    match resolve { wk := fun q => (wkFetch c n 11 q).2, srv := fun _ _ => .notFound } name with
+    | .error _ => ⟨wkArr, false⟩
+    | .ok ts =>
+      let (a, ok) := tryDial c n ts
+      ⟨wkArr ++ a, ok⟩
+  else
+    let (a, ok) := tryDial c n [⟨name, name, name⟩]
+    ⟨a, ok⟩
+
+/-- C16: "a connection is made only to … addresses that lie in no denied range and in at least one allowed
+    range": the client's lists when it has any, and the lists of its DNS cache when it has one -/
+def permittedBy (c : Config) (ip : Str) : Bool :=
+  clientControl c ip && (!c.cache || cacheControl c ip)
+
+end Policy
+
 /-! ## Specification: Server-Server API, "Resolving server names" -/
 namespace Spec
 
@@ -280,9 +397,15 @@ def hostport (ip port : Str) : Str := if ip.contains ':' then '[' :: ip ++ "]:".
 
 def stripDot (t : Str) : Str := if t.getLast? == some '.' then t.dropLast else t
 
-/-- the targets of a list of SRV records found for `n`: Host header and certificate name are `n` -/
+/-- A record whose target is the root `.` names no host: RFC 2782, "A Target of "." means that the service
+    is decidedly not available at this domain".  (net.Resolver.LookupSRV passes such records on: the root
+    is a valid domain name.) -/
+def rootTarget (r : Str × Nat) : Bool := (stripDot r.1).isEmpty
+
+/-- the targets of a list of SRV records found for `n`: Host header and certificate name are `n`; a record
+    with the root target yields no target (a destination ":port" would send the request to the local host) -/
 def srvTargets (n : Str) (rs : List (Str × Nat)) : List Target :=
-  rs.map (fun r => ⟨stripDot r.1 ++ ':' :: natStr r.2, n, n⟩)
+  (rs.filter (fun r => !rootTarget r)).map (fun r => ⟨stripDot r.1 ++ ':' :: natStr r.2, n, n⟩)
 
 /-- A lookup "finds" SRV records when it succeeds with at least one record. -/
 def found : SrvAnswer → Option (List (Str × Nat))
@@ -328,10 +451,13 @@ def resolve (o : Oracles) (name : Str) : Except Err (List Target) :=
           | none => .ok (srvSteps o.srv d)                              -- 3.3, 3.4, 3.5
       | none => .ok (srvSteps o.srv name)                               -- 4, 5, 6
 
-/-- Assumption on the resolver (net.Resolver.LookupSRV): a successful lookup has at least one
-    record, and every record has a non-empty target. -/
+/-- Assumption on the resolver: a lookup that succeeds has at least one record.  (net.Resolver.LookupSRV
+    reports "no such host" when there is no SRV data, and an error along with the records it keeps when it
+    drops malformed ones.)  Nothing is assumed about the targets: the root `.` — a valid domain name, passed
+    on by the resolver — and even an empty target are handled (finding R8; before its repair the code indexed
+    into the target and turned the root into the destination ":port"). -/
 def SrvSane (srv : Str → Str → SrvAnswer) : Prop :=
-  ∀ svc n rs, srv svc n = .records rs → rs ≠ [] ∧ ∀ r ∈ rs, r.1 ≠ []
+  ∀ svc n rs, srv svc n = .records rs → rs ≠ []
 
 end Spec
 
